@@ -54,6 +54,7 @@ type hcCase struct {
 	LoadTTL  int64    `json:"load_ttl_ms,omitempty"`
 	SecDelay int      `json:"sec_delay_us,omitempty"` // every secondary call takes this long
 	Keys     int      `json:"keys"`
+	Once     bool     `json:"write_once,omitempty"` // every key is stored by Set at most once in the case
 	Progs    [][]hcOp `json:"progs"`
 }
 
@@ -411,7 +412,8 @@ func execHyConc(c hcCase, x *verifkit.Ctx, c15 bool) (fail *verifkit.Failure) {
 	x.ClassIf(c.Loading, "loading")
 	x.ClassIf(c.Pool, "entry-pool")
 	x.ClassIf(c.SecDelay > 0, "slow-secondary")
-	x.ClassIf(steered, "write-once-keys(known C14-stale-copy)")
+	x.ClassIf(steered, "older-value-rule-off(known C14-stale-copy)")
+	x.ClassIf(c.Once, "write-once-keys")
 	verifkit.AddCount("hyconc_operations", int64(len(h.Recs)))
 	verifkit.AddCount("hyconc_demotions", sec.setCalls.Load())
 	verifkit.AddCount("hyconc_promotions", int64(nHitAfterDemotion))
@@ -436,7 +438,11 @@ func genHyConc(t *rapid.T) hcCase {
 	if c.Loading {
 		c.LoadTTL = rapid.SampledFrom([]int64{0, 0, 2, 5, 3_600_000}).Draw(t, "loadTTL")
 	}
-	steered := verifkit.Avoid("C14-stale-copy") || hyAlwaysSteer
+	// while known finding C14-stale-copy is listed "an older value than the last completed Set" is not
+	// judged; half of those cases store every key at most once (then the C15 tier can also ask for every
+	// such key at rest), the other half re-write keys freely (Delete, Set again, Delete ...)
+	steered := (verifkit.Avoid("C14-stale-copy") || hyAlwaysSteer) && rapid.Bool().Draw(t, "writeOnce")
+	c.Once = steered
 	ng := rapid.IntRange(2, 6).Draw(t, "goroutines")
 	nops := rapid.IntRange(20, 120).Draw(t, "ops")
 	c.Keys = c.MaxSize * rapid.IntRange(2, 4).Draw(t, "keyFactor")
@@ -502,7 +508,7 @@ func TestVerifC15Conc(t *testing.T) {
 func TestVerifC14Conc(t *testing.T) {
 	verifkit.Run(t, verifkit.Spec[hcCase]{
 		ID: "C14", Gen: genHyConc, Exec: func(c hcCase, x *verifkit.Ctx) *verifkit.Failure { return execHyConc(c, x, false) }, Nondet: true, Rejudge: hcRejudge, ReplayJudgeOnly: true,
-		Rule: "C14 (free-running concurrent tier): rapid draws a hybrid store (MaxSize 2..32, 1..4 secondary workers, admission probability 1 or 0.5, entry pool on in a third, loading in a third with loader TTL none/2 ms/5 ms/1 h, every secondary call taking 0/20/200 us) and 2..6 goroutine programs of 20..120 operations (Set / SetWithTTL none, 2, 5, 20 ms, 1 h / Get / Delete, drawn Gosched counts) over 2..4 x MaxSize keys (more when keys are write-once); every value is unique, every call is stamped at call and return, all keys are read once more after the workers have settled; non-trivial = at least one demotion, one promotion and one Delete or TTL in the case",
+		Rule: "C14 (free-running concurrent tier): rapid draws a hybrid store (MaxSize 2..32, 1..4 secondary workers, admission probability 1 or 0.5, entry pool on in a third, loading in a third with loader TTL none/2 ms/5 ms/1 h, every secondary call taking 0/20/200 us) and 2..6 goroutine programs of 20..120 operations (Set / SetWithTTL none, 2, 5, 20 ms, 1 h / Get / Delete, drawn Gosched counts) over 2..4 x MaxSize keys (more in the half of the cases whose keys are stored at most once); every value is unique, every call is stamped at call and return, all keys are read once more after the workers have settled; non-trivial = at least one demotion, one promotion and one Delete or TTL in the case",
 		Assumptions: []string{
 			"the interleavings are those the Go scheduler produces under the drawn perturbations; a failure is replayed by re-judging the recorded history",
 			"real clock: the harness stamps with time.Now (monotonic), the store computes deadlines between the call and the return of the write, so 'called at or after return+TTL' is never before the deadline",
